@@ -251,7 +251,8 @@ def run(repo: Repo, rep: Report, tier: str) -> None:
         if ctor is None:
             continue
         risky = [c for c in calls_in(ctor.node) if not (isinstance(c.func, ast.Attribute) and c.func.attr == "__init__")
-                 and not (isinstance(c.func, ast.Name) and c.func.id in ("super", "str", "repr", "int", "getattr", "isinstance", "type"))]
+                 and not (isinstance(c.func, ast.Name) and c.func.id in ("super", "str", "repr", "int", "getattr", "isinstance", "type", "format"))
+                 and not (isinstance(c.func, ast.Attribute) and isinstance(c.func.value, ast.Constant) and isinstance(c.func.value.value, str) and c.func.attr in ("format", "join"))]
         subs_ = [x for x in ast.walk(ctor.node) if isinstance(x, ast.Subscript) and isinstance(x.ctx, ast.Load)]
         subc = f"{exc_mod.relpath}:{cname}.__init__ is total"
         if risky or subs_:
